@@ -81,3 +81,8 @@ claim("C14",
       "exhaustive enumeration of STAT sources x LYC values x LCD off/on points on the real PPU with per-cycle IF observation against a reference request predictor",
       "IF is read and cleared after every machine cycle, so the exact cycle of every request is observed: VBlank exactly when LY becomes 144 and once per frame; with one STAT source enabled, a request exactly at the rising edge of that source (mode-0 entry; LY becomes 144; LY becomes n for n in 0-143; LY becomes LYC for every LYC 0-153 and out of range) over 3 frames; and for LCD off (1 and 300 cycles) / on at every cycle of lines 0, 1, 143, 144, 153 (thorough: every cycle of a frame): nothing requested by switching off, while off, or (VBlank/HBlank sources) by switching on.",
       "Don't-cares: OAM source at line 144; STAT requests in the cycle the LCD is switched on for the OAM/LYC sources; several sources at once.")
+
+claim("C15",
+      "exhaustive enumeration of a finite scene family rendered by the real PPU, compared pixel by pixel with a reference DMG compositor",
+      "Every scene of a union of complete products is written through the Mapper with the LCD off, rendered by one frame of real PPU cycles and compared pixel by pixel (160x144 RGBA) with the reference composition: background/window product (tile map x addressing mode x SCX x SCY x window off or WX x WY x window map x palettes); single-object product (X at every clipping amount at the left/right edges, Y at every clipping amount at the top/bottom edges, 4 flips, both palettes, both priorities); pairs of overlapping objects (dx, dy in {-7..7} classes x priority/palette combinations, OAM in X order); ten objects on a line. Tile data is one of three fixed sets of 384 distinct patterns (VERIF_SEED selects the set).",
+      "Trusted: ref/render.go (Pan Docs tile data, OAM attributes, priorities). The scene family is a stated finite sub-domain of 'all scenes'; the preconditions of the statement (8x8 objects, <= 10 per line, X-ordered OAM, WX 7-166, constant scene) are respected.")
